@@ -93,7 +93,7 @@ var c06Values = [dNumDims][]string{
 	dVer:    {"v2", "v1-absent", "v3"},
 	dN:      {"3", "0", "1", "2", "30", "0-present-empty", "800000"}, // the last one (a list of more than 16 MiB: four length octets) is not part of the core product
 	dNU:     {"present", "absent"},
-	dExt:    {"aki+number", "absent", "number", "aki+number+unknown-noncritical", "aki+number+unknown-critical", "aki+number+delta-critical", "aki+number+idp-critical", "aki+number+ian-critical", "aki+number+freshest-critical", "aki+number+aia-critical"},
+	dExt:    {"aki+number", "absent", "number", "aki+number-9-octets", "aki+number-20-octets", "aki+number+unknown-noncritical", "aki+number+unknown-critical", "aki+number+delta-critical", "aki+number+idp-critical", "aki+number+ian-critical", "aki+number+freshest-critical", "aki+number+aia-critical"},
 	dEnc:    {"DER", "PEM-LF", "PEM-CRLF"},
 	dDate:   {"UTCTime", "GeneralizedTime"},
 	dSerial: {"small", "1byte", "2byte", "3byte", "8byte", "9byte-topbit", "16byte", "19byte", "20byte", "zero", "2^159", "20byte-topbit"},
@@ -292,7 +292,7 @@ func (c c06Case) build() (doc []byte, der []byte, wellFormed bool, mustReject bo
 		}
 		switch c06Values[dEExt][c[dEExt]] {
 		case "reason":
-			e.Exts = []pkix.Extension{world.ReasonExt(1 + i%5)}
+			e.Exts = []pkix.Extension{world.ReasonExt([]int{1, 8, 2, 0, 3, 10, 4, 6, 5, 9}[i%10])} // every reason code, also removeFromCRL (8)
 		case "reason+invalidityDate":
 			e.Exts = []pkix.Extension{world.ReasonExt(1), world.InvalidityDateExt(vsched.Epoch.Add(-100 * time.Hour))}
 		case "opaque-3KiB":
@@ -317,6 +317,10 @@ func (c c06Case) build() (doc []byte, der []byte, wellFormed bool, mustReject bo
 	case "absent":
 	case "number":
 		s.Exts = []pkix.Extension{world.CRLNumberExt(300)}
+	case "aki+number-9-octets":
+		s.Exts = []pkix.Extension{aki, world.CRLNumberBigExt(new(big.Int).Lsh(big.NewInt(0x81), 64))}
+	case "aki+number-20-octets":
+		s.Exts = []pkix.Extension{aki, world.CRLNumberBigExt(new(big.Int).Lsh(big.NewInt(0x7f), 152))}
 	case "aki+number+unknown-noncritical":
 		s.Exts = []pkix.Extension{aki, world.CRLNumberExt(7), world.UnknownExt(false, 10)}
 	case "aki+number+unknown-critical":
